@@ -124,6 +124,6 @@ def aim_at_floor_window(case, rng):
     d = rng.choice(cands)
     u = rng.uniform(0.05, 0.95)
     g = (1 - kappa * u) / d
-    if not (0 < g < 1e12) or not math.isfinite(g):
-        return None
+    if not (0 < g <= 1e4) or not math.isfinite(g):
+        return None  # keep the callback in a range an application could plausibly use
     return dict(case, cfg=dict(case["cfg"], gamma=f"const:{g!r}"))
